@@ -17,3 +17,47 @@ Definition fix_file (e : env) (U : file -> res kust) (R : kust -> string -> list
   | Diverge => (CDiverge, f)
   end.
 
+
+(* ---------- `kustomize edit fix --vars` (RunFix with flags.vars; convert.go) ----------
+   ConvertVarsToReplacements reads and rewrites the RESOURCE files of the tree (YAML walking, placeholder
+   substitution): that part is not modelled.  What it does to the kustomization enters as an oracle:
+     VFail        the conversion failed (an occurrence that is not delimited, ...): nothing is written;
+     VOk tok      it succeeded; tok = JSON of the replacements it produced (None: empty list).
+   Modelled: it only runs when the file has vars, appends bases to resources, REPLACES whatever
+   `replacements:` the file had (finding fix-vars-drops-existing-replacements), removes `vars:`; and where
+   the fields then go in the rewritten file. *)
+Inductive vars_oracle := VFail | VOk (tok : option string).
+
+Fixpoint rank_of (n : string) (l : list string) : nat :=
+  match l with
+  | [] => O
+  | x :: t => if String.eqb x n then O else S (rank_of n t)
+  end.
+
+Definition other_remove (n : string) (l : list (string * string)) : list (string * string) :=
+  filter (fun kv => negb (String.eqb (fst kv) n)) l.
+
+(* k_other is kept in the order of Kust.opaque_fields *)
+Fixpoint other_insert (n v : string) (l : list (string * string)) : list (string * string) :=
+  match l with
+  | [] => [(n, v)]
+  | (m, w) :: t =>
+      if String.eqb m n then (n, v) :: t
+      else if Nat.ltb (rank_of n opaque_fields) (rank_of m opaque_fields) then (n, v) :: (m, w) :: t
+      else (m, w) :: other_insert n v t
+  end.
+
+Definition fix_vars_cmd (e : env) (rk : res kust) (vo : vars_oracle) : res (option kust) :=
+  do k <- rk;
+  do k' <- fix_premarshal (file_exists e) k;
+  match assoc_get "Vars" (k_other k') with
+  | None => Ok (Some k')                       (* k.Vars == nil: nothing to convert *)
+  | Some _ =>
+      match vo with
+      | VFail => Err
+      | VOk tok =>
+          let o1 := other_remove "Vars" (other_remove "Replacements" (k_other k')) in
+          let o2 := match tok with Some t => other_insert "Replacements" t o1 | None => o1 end in
+          Ok (Some (set_other o2 (set_resources (k_resources k' ++ k_bases k') k')))
+      end
+  end.
